@@ -1794,6 +1794,18 @@ func (w *walker) call(v *ast.CallExpr, out *[]Node, outer bool, bind interface{}
 					}
 				}
 			}
+			// an unexported method of the stream type with a body of its own (a helper the stream's
+			// exported methods share): followed like any helper that is handed the stream, which here is
+			// its receiver
+			if fn != nil && !fn.Exported() {
+				if hf := w.x.P.FuncOf(fn); hf != nil && hf.Decl.Body != nil && hf.Pkg == w.c.FI.Pkg && hf != w.c.FI {
+					for _, a := range v.Args {
+						visit(a, false)
+					}
+					*out = append(*out, &Call{Pos: v.Pos(), Callee: fn, Expr: v, Fn: w.c, StreamArg: -1})
+					return
+				}
+			}
 			*out = append(*out, &Unknown{Pos: v.Pos(), Reason: "unclassified stream method " + name})
 			return
 		}
